@@ -434,6 +434,8 @@ class Translator:
         if lty and lty[0] == 'tuple' and r.startswith('('):
             parts = split_top(r[1:-1])
             return '(%s){ %s }' % (s.ct.of(lty), ', '.join(s.operand(f, p)[0] for p in parts))
+        if lty and lty[0] == 'array' and re.match(r'^\[const .*\{constant#\d+\}; [NM]\]$', r):
+            return None          # [const { MaybeUninit::uninit() }; N]: stays uninitialised (nondeterministic)
         if lty and lty[0] == 'array' and r.startswith('['):
             if lty[1][0] == 'opaque' or s.ct.of(lty[1]) == 'opaque_t': return None
             parts = split_top(r[1:-1])
@@ -514,6 +516,11 @@ class Translator:
             (r'^<Option<.*> as Try>::branch$', 'TRY_BRANCH'),
             (r'^<Option<.*> as FromResidual<.*>>::from_residual$', 'NONE'),
             (r'^<impl \[T\]>::split_first(_mut)?$', 'SPLIT_FIRST'),
+            (r'^<impl \[T\]>::split_off_first(_mut)?$', 'SPLIT_OFF_FIRST'),
+            (r'^<impl \[T\]>::split_off_last(_mut)?$', 'SPLIT_OFF_LAST'),
+            (r'^<impl \[T\]>::split_off(_mut)?$', 'rt_split_off'),
+            (r'^<\[T\]>::write_clone_of_slice$', 'rt_write_clone_of_slice'),
+            (r'^<\[T\]>::assume_init_(mut|ref)$', 'rt_identity'),
             (r'^<impl \[T\]>::split_last(_mut)?$', 'SPLIT_LAST'),
             (r'^take$', 'TAKE_SLICE'),
             (r'^<impl \[T\]>::as_mut_ptr$|^<impl \[T\]>::as_ptr$', 'FAT_PTR'),
@@ -689,6 +696,13 @@ class Translator:
                 else:
                     stmt = '{ %s.disc = (%s.len != 0); if (%s.disc) { %s.v.f0 = %s.ptr + (%s.len - 1); %s.v.f1.ptr = %s.ptr; %s.v.f1.len = %s.len - 1; } }' % (de, a, de, de, a, a, de, a, de, a)
                 return [stmt] + goto_ret
+            if name in ('SPLIT_OFF_FIRST', 'SPLIT_OFF_LAST'):
+                a = avs[0][0]        # &mut &[T]
+                if name == 'SPLIT_OFF_FIRST':
+                    stmt = '{ %s.disc = ((*%s).len != 0); if (%s.disc) { %s.v = (*%s).ptr; (*%s).ptr = (*%s).ptr + 1; (*%s).len -= 1; } }' % (de, a, de, de, a, a, a, a)
+                else:
+                    stmt = '{ %s.disc = ((*%s).len != 0); if (%s.disc) { %s.v = (*%s).ptr + ((*%s).len - 1); (*%s).len -= 1; } }' % (de, a, de, de, a, a, a)
+                return [stmt] + goto_ret
             if name == 'TAKE_SLICE':
                 a = avs[0][0]
                 return ['{ %s = *%s; (*%s).ptr = EMPTY; (*%s).len = 0; }' % (de, a, a, a)] + goto_ret
@@ -768,7 +782,7 @@ if __name__ == '__main__':
     if sys.argv[4:] == ['--list']:
         for k in sorted(tr.fns): print(k, len(tr.fns[k]))
         sys.exit(0)
-    for t in ('&mut [T]', 'Option<T>', 'Option<&T>', 'Option<usize>', 'Bound<&usize>', '(usize, bool)', '(&mut [T], &mut [T])', 'Iter<T>'):
+    for t in ('&mut [T]', 'Option<T>', 'Option<&T>', 'Option<&mut [T]>', 'Option<usize>', 'Bound<&usize>', '(usize, bool)', '(&mut [T], &mut [T])', 'Iter<T>'):
         tr.ct.of(parse_type(t))
     roots = list(sys.argv[4:]) + ['Iterator for Iter::next']
     bodies = tr.run(roots)
